@@ -63,7 +63,7 @@ EXHAUSTIVE = {"quick": False, "thorough": False}
 
 NET_RETRY = 3
 EXC_TAGS = {"BrokenPipeError": 0, "ValueError": 1, "ModExc": 2, "OSError": 3, "Loc": 4, "KeyError": 5,
-            "FileNotFoundError": 3}
+            "FileNotFoundError": 3, "TypeError": 6}
 UNSENDABLE_TAGS = {4}      # emptied by code_params() when PickleSafeException survives a local exception class
 _PARAMS = {}
 
@@ -104,7 +104,7 @@ def _behaviour(rng, raising, p_trans=0.08):
     if raising:
         b = dict(k="err", e=rng.choice([1, 1, 2, 3, 5]))
     else:
-        b = dict(k="val", shape=rng.choice(["int", "int", "str", "list", "gen"]))
+        b = dict(k="val", shape=rng.choice(["int", "int", "str", "list", "gen", "int", "str", "lazy"]))
     if rng.random() < p_trans:
         b["trans"] = rng.choice([1, 2, 3, 3, 4, 5])
     return b
@@ -291,6 +291,8 @@ def shape_value(shape, i):
         return [v, v + 1]
     if shape == "blob":
         return bytes([v % 251]) * 65536
+    if shape == "lazy":
+        return [v, "<generator>"]
     raise ValueError(shape)
 
 
@@ -301,6 +303,10 @@ def expected_out(case, i):
     if t > NET_RETRY:
         return ["exc", 0, True]
     if b["k"] == "val":
+        if b.get("shape") == "lazy" and pool_size(case) != 1:
+            # a result that cannot be pickled (a lazy generator inside a row): the worker reports the task as failed
+            # with the pickling error; in the single-process path the object is handed over as it is
+            return ["exc", 6, True]
         return ["ok", i * 7 + 1]
     return ["exc", b["e"], b["e"] not in UNSENDABLE_TAGS]
 
@@ -340,6 +346,9 @@ def _task(device_id, spec):
         if b["shape"] == "gen":
             v = i * 7 + 1
             return (x for x in (v, v + 1))
+        if b["shape"] == "lazy":
+            v = i * 7 + 1
+            return [v, (x for x in (v,))]
         return shape_value(b["shape"], i)
     e = b["e"]
     if e == 1:
@@ -374,6 +383,10 @@ def canon_result(case, tr):
     b = case["beh"].get(str(i))
     if b is None or b["k"] != "val":
         return [i, ["badval", repr(tr.result)[:40]]]
+    import inspect
+    if b["shape"] == "lazy" and isinstance(tr.result, list) and len(tr.result) == 2 and tr.result[0] == i * 7 + 1 \
+            and inspect.isgenerator(tr.result[1]):
+        return [i, ["ok", i * 7 + 1]]
     if tr.result == shape_value(b["shape"], i):
         return [i, ["ok", i * 7 + 1]]
     return [i, ["badval", repr(tr.result)[:40]]]
@@ -701,6 +714,8 @@ def lean_cfg(case, rule=None):
         b = case["beh"][k]
         i = int(k)
         fin = ["val", i * 7 + 1] if b["k"] == "val" else ["err", b["e"], b["e"] not in UNSENDABLE_TAGS]
+        if b["k"] == "val" and b.get("shape") == "lazy" and pool_size(case) != 1:
+            fin = ["err", 6, True]
         calls.append([i, [["net"]] * b.get("trans", 0) + [fin]])
     return dict(ids=case["ids"], calls=calls, net_retry=NET_RETRY, parallel=case["parallel"],
                 max_tasks=case["max_tasks"], tolerate=bool(case["tolerate"]), rule=rule)
